@@ -40,3 +40,10 @@ Section Shipped.
     - apply (forallb_impl tagfree); [exact tagfree_no_generator_tag|]. apply ref_lines_tagfree; assumption.
   Qed.
 End Shipped.
+
+Lemma shipped_output_flat lines l0 t m (a : usertags) :
+  shipped16 dict0 lines = Some (l0, t) ->
+  wf_elements16 t (elements_of_model m) = true ->
+  generate_file m dict0 a lines = Some (ref16 (elements_of_model m) t)
+  /\ forallb no_generator_tag (flat_map (ref_item16 (elements_of_model m)) t) = true.
+Proof. intros Hs Hw. exact (shipped_output lines l0 t Hs m a Hw). Qed.
